@@ -68,7 +68,7 @@ def make_context(kind: str = 'object') -> Any:
 def observe(spec: Dict[str, Any], dispatcher: Any = None, text: Optional[str] = None, **dispatcher_kwargs: Any) -> Observation:
     kind = spec['dispatcher']
     sentinel = make_context(spec.get('ctx_value', 'object'))
-    hm.RT.reset(sentinel, behaviours_of(spec), error_builder=build_error)
+    hm.RT.reset(sentinel, behaviours_of(spec), error_builder=build_error, yield_once=bool(spec.get('yield_once')))
     if dispatcher is None:
         kw = dict(dispatcher_kwargs)
         if 'max_batch_size' in spec:
